@@ -3,7 +3,8 @@
 Proof: lean/IstioModel/C16/MonitorTheorems.lean (the stream monitor accepts exactly the well-formed
 streams that replay to the given contents: monitorB_iff, sound and complete; late subscribers),
 lean/IstioModel/C16/RuntimeTheorems.lean (abstract runtime model of manyCollection, Model.lean:
-state_correct_partial, key_move_witness, state_correct_one_to_one, stream_wellformed, deps_complete).
+state_correct_partial, key_move_witness, state_correct_key_preserving, one_to_one_by_value_witness,
+stream_wellformed, deps_complete).
 Tie: T-mon + T-diff on REAL krt collections.  harness/c16 builds static inputs, a
 NewCollection / NewManyCollection whose transformation function interprets a data-described
 Transform (krt.Fetch with FilterKey / FilterSelects / FilterSelectsNonEmpty / FilterLabel /
@@ -16,7 +17,10 @@ cases flagged `f6`; every other difference is a VIOLATION.  Stream `exact` ties 
 the code: the model is executed on the same history (sequential schedule) and must produce exactly
 the real events, contents and index lookups at every step (F6 included).
 """
+import hashlib
+import json
 import os
+import time
 
 THEOREMS = ["IstioModel.C16.MonitorTheorems", "IstioModel.C16.RuntimeTheorems", "IstioModel.C16.IndexTheorems",
             "IstioModel.C16.JoinTheorems", "IstioModel.C16.DisciplineTheorems",
@@ -62,14 +66,14 @@ def corpus_for(stream, fname):
     return fname.startswith(stream + ".") and fname.endswith(".ops")
 
 
-def run_pair(ctx, stream, ops_path, tag):
+def run_pair(ctx, stream, ops_path, tag, env=None):
     """exec on the real krt (writes impl + trace), then the Lean driver on the trace."""
     impl = os.path.join(ctx.work, "%s.%s.impl" % (stream, tag))
     model = os.path.join(ctx.work, "%s.%s.model" % (stream, tag))
     for p in (impl, model, impl + ".trace"):
         if os.path.exists(p):
             os.remove(p)
-    rc, out = ctx.harness("exec", stream, ops_path, impl)
+    rc, out = ctx.harness("exec", stream, ops_path, impl, env_extra=env)
     if not os.path.exists(impl + ".trace"):
         return False, impl, model, "harness exec rc=%d wrote no trace: %s" % (rc, out[-3000:])
     rc2, err = ctx.drv(stream, impl + ".trace", model)
@@ -87,7 +91,8 @@ def split_cases(ops):
 
 def scan(ctx, ops_path, impl_path, model_path, stream="krt"):
     """Full comparison. Returns (ncases, nlines, f6_cases, real) where f6_cases are cases whose only
-    differences are on u-lines of a flagged case, and real = list of (case_lines, idx, impl, model)."""
+    differences are on u-lines of a flagged case, and real = list of (case_lines, idx, impl, model, start, end)
+    (start / end: the lines of the case in the ops / impl / trace files)."""
     ops = ctx.read_lines(ops_path)
     impl = ctx.read_lines(impl_path)
     model = ctx.read_lines(model_path) if os.path.exists(model_path) else []
@@ -107,7 +112,7 @@ def scan(ctx, ops_path, impl_path, model_path, stream="krt"):
                     and a != "crash" and "crash" not in a.split()[:2]):
                 bad_u.append((i - s, a, b))
             elif bad_real is None:
-                bad_real = (ops[s:e], i - s, a, b)
+                bad_real = (ops[s:e], i - s, a, b, s, e)
         if bad_real is not None:
             real.append(bad_real)
         elif bad_u:
@@ -115,29 +120,93 @@ def scan(ctx, ops_path, impl_path, model_path, stream="krt"):
     return len(cases), len(ops), f6_cases, real
 
 
-def has_real_mismatch(ctx, stream, lines):
-    p = os.path.join(ctx.work, "%s.shrink.ops" % stream)
+# contention settings for re-runs of one case: (GOMAXPROCS or None, busy goroutines outside the bubble)
+CONTENTION = [(None, 0), ("2", 2), ("4", 8), ("1", 0), ("8", 4), ("3", 1), ("16", 16), (None, 6), ("2", 0), ("6", 12)]
+COPIES = 20
+
+
+def case_hash(stream, ops):
+    return hashlib.sha1("\n".join([stream] + list(ops)).encode()).hexdigest()[:10]
+
+
+def record(ctx, fp, what, rep, found=True):
+    """ctx.violation, and a replay file whose name also carries a hash of the case: a later run with the same
+    fingerprint and another case does not overwrite it"""
+    n = len(ctx.violations)
+    ctx.violation(fp, what, rep, found)
+    if len(ctx.violations) > n and isinstance(rep, dict) and rep.get("ops"):
+        v = ctx.violations[-1]
+        new = v["path"][:-len(".json")] + "-" + case_hash(rep.get("stream", ""), rep["ops"]) + ".json"
+        try:
+            os.replace(v["path"], new)
+            v["path"] = new
+        except OSError:
+            pass
+
+
+def run_copies(ctx, stream, case_lines, copies, tag, setting=0):
+    """the case `copies` times in one ops file (every copy runs in a bubble of its own), under one contention
+    setting. Returns (ok, real, known, (ops, impl, model), log)."""
+    p = os.path.join(ctx.work, "%s.%s.ops" % (stream, tag))
     with open(p, "w") as f:
-        f.write("\n".join(lines) + "\n")
-    ok, impl, model, log = run_pair(ctx, stream, p, "shrink")
+        f.write(("\n".join(case_lines) + "\n") * copies)
+    gmp, busy = CONTENTION[setting % len(CONTENTION)]
+    env = {"C16_BUSY": str(busy)}
+    if gmp:
+        env["GOMAXPROCS"] = gmp
+    ok, impl, model, log = run_pair(ctx, stream, p, tag, env)
     if not ok:
-        return False
-    _, _, _, real = scan(ctx, p, impl, model, stream)
-    return bool(real)
+        return False, [], [], (p, impl, model), log
+    _, _, known, real = scan(ctx, p, impl, model, stream)
+    return True, real, known, (p, impl, model), log
 
 
-def shrink(ctx, stream, case_lines, max_rounds=150):
+def segment(ctx, paths, m):
+    """the recorded trace and the implementation's answers of the case of mismatch m"""
+    p, impl, model = paths
+    s, e = m[4], m[5]
+    tr = ctx.read_lines(impl + ".trace") if os.path.exists(impl + ".trace") else []
+    return {"trace": tr[s:e], "impl_output": ctx.read_lines(impl)[s:e]}
+
+
+def reproduction(ctx, stream, case_lines, runs, tag, stop_at=None):
+    """re-runs one case `runs` times under varying contention; returns (hits, total, first mismatch, its segment)"""
+    hits = total = 0
+    first = seg = None
+    i = 0
+    while total < runs:
+        ok, real, _, paths, log = run_copies(ctx, stream, case_lines, COPIES, tag, i)
+        i += 1
+        total += COPIES
+        if not ok:
+            continue
+        hits += len(real)
+        if real and first is None:
+            first, seg = real[0], segment(ctx, paths, real[0])
+        if stop_at and hits >= stop_at:
+            break
+    return hits, total, first, seg
+
+
+def has_real_mismatch(ctx, stream, lines, copies=1, rnd=0):
+    ok, real, _, _, _ = run_copies(ctx, stream, lines, copies, "shrink", rnd if copies > 1 else 0)
+    return ok and bool(real)
+
+
+def shrink(ctx, stream, case_lines, copies=1, max_rounds=150, budget=100.0):
     """Delta-debugging that keeps the header (hence the f6 flag) and only accepts candidates that
-    still show a difference outside the known class."""
+    still show a difference outside the known class. A schedule dependent case is run `copies` times per
+    candidate (under varying contention): a candidate is accepted as soon as one run differs."""
     head, body = case_lines[0], list(case_lines[1:])
     rounds = 0
+    t0 = time.time()
     chunk = max(1, len(body) // 2)
-    while chunk >= 1 and rounds < max_rounds:
+    while chunk >= 1 and rounds < max_rounds and time.time() - t0 < budget:
         i, progressed = 0, False
-        while i < len(body) and rounds < max_rounds:
+        while i < len(body) and rounds < max_rounds and time.time() - t0 < budget:
             cand = body[:i] + body[i + chunk:]
             rounds += 1
-            if cand != body and has_real_mismatch(ctx, stream, [head] + cand):
+            if cand != body and has_real_mismatch(ctx, stream, [head] + cand, copies, rounds):
                 body, progressed = cand, True
             else:
                 i += chunk
@@ -199,22 +268,31 @@ def run_stream(ctx, stream, ncases):
                           {"stream": stream, "ops": case_lines, "source": tag,
                            "differences": [{"op": case_lines[i], "implementation": a, "specification": b}
                                            for (i, a, b) in bad[:6]]}, True)
-        for (case_lines, idx, a, b) in real[:3]:
+        for m in real[:3]:
+            case_lines, idx, a, b = m[:4]
             st["agree"] = False
             ctx.log("stream %s (%s): real krt and specification differ at op %d '%s'\n   impl : %s\n   spec : %s"
                     % (stream, tag, idx, case_lines[idx], a[:300], b[:300]))
-            small = shrink(ctx, stream, case_lines)
-            p = os.path.join(ctx.work, "%s.min.ops" % stream)
-            with open(p, "w") as f:
-                f.write("\n".join(small) + "\n")
-            ok2, impl2, model2, _ = run_pair(ctx, stream, p, "min")
-            real2 = scan(ctx, p, impl2, model2, stream)[3] if ok2 else []
-            if real2:
-                case_lines, idx, a, b = real2[0]
+            seg = segment(ctx, (ops, impl, model), m)
+            # does the case depend on the schedule? (re-run it alone, under varying contention)
+            hits, total, _, _ = reproduction(ctx, stream, case_lines, 2 * COPIES, "rerun")
+            if hits == 0:
+                hits, total, _, _ = reproduction(ctx, stream, case_lines, 20 * COPIES, "rerun", stop_at=3)
+            racy = hits < total
+            copies = 1 if not racy else min(80, max(8, 4 * total // max(hits, 1)))
+            small = shrink(ctx, stream, case_lines, copies) if hits else case_lines
+            ok2, real2, _, paths2, _ = run_copies(ctx, stream, small, 2 * copies, "min", 1 if racy else 0)
+            if ok2 and real2:
+                case_lines, idx, a, b = real2[0][:4]
+                seg = segment(ctx, paths2, real2[0])
             fp, what = classify(case_lines[idx], a, b)
             rep = {"stream": stream, "ops": case_lines, "source": tag,
                    "first_difference_at_op": idx, "implementation": a, "specification": b,
-                   "trace": ctx.read_lines(impl2 + ".trace")[:200] if ok2 and real2 else None}
+                   "schedule_dependent": racy, "reproduced": "%d of %d re-runs of the unshrunk case" % (hits, total),
+                   "trace": seg["trace"][:2000], "impl_output": seg["impl_output"][:2000]}
+            if racy:
+                ctx.log("stream %s: the case depends on the schedule (%d of %d re-runs differ); shrunk with %d runs per "
+                        "candidate to %d ops" % (stream, hits, total, copies, len(case_lines) - 1))
             if stream in ("exact", "joinx") and fp != "krt:crash":
                 # the runtime model (object of the runtime theorems) no longer behaves like the code: a broken
                 # correspondence, not by itself a violation of the property (the other streams search for one)
@@ -222,7 +300,7 @@ def run_stream(ctx, stream, ncases):
                                "the runtime model and the real collection differ at op '%s'\n impl : %s\n model: %s"
                                % (case_lines[idx], a[:500], b[:500]), rep)
             else:
-                ctx.violation(fp, what, rep, True)
+                record(ctx, fp, what, rep, True)
     ctx.log("stream %s: %d cases, %d lines, %s%s" % (
         stream, st["cases"], st["ops"], "agree" if st["agree"] else "DIFFER",
         (" (known class %s reproduced in %d flagged cases)" % (known_class(stream)[0], st["known_f6_cases"]))
@@ -260,9 +338,9 @@ def run_oracle(ctx, stream):
                     fp, what = known_class(stream)
                     ctx.violation(fp, what, {"stream": stream, "ops": ops[s:e], "oracle_verdict": v}, True)
                 else:
-                    ctx.violation("krt:oracle:%s" % clause,
-                                  "the Go-side evaluation of the property fails (%s)" % v,
-                                  {"stream": stream, "ops": ops[s:e], "oracle_verdict": v}, True)
+                    record(ctx, "krt:oracle:%s" % clause,
+                           "the Go-side evaluation of the property fails (%s)" % v,
+                           {"stream": stream, "ops": ops[s:e], "oracle_verdict": v}, True)
 
 
 def run(ctx):
@@ -301,7 +379,7 @@ def run(ctx):
     if rc != 0 or not os.path.exists(gen):
         ctx.tie_broken("harness-table:regfacts", "the fact extractor did not produce %s: rc=%s %s" % (GEN, rc, log[-2000:]))
         with open(gen, "w") as f:
-            f.write("namespace IstioModel.Generated.C16\ndef regFacts : List (String × String × String × Bool) := []\n"
+            f.write("namespace IstioModel.Generated.C16\ndef regFacts : List (String × String × String × Bool × Bool × String) := []\n"
                     "end IstioModel.Generated.C16\n")
     proved = ctx.lean_prove(THEOREMS)
     if not ctx.build_drv():
@@ -326,7 +404,6 @@ def run(ctx):
 
 
 def replay(ctx, path):
-    import json
     obj = json.load(open(path))
     rep = obj.get("replay", {})
     ops = rep.get("ops") or (rep.get("extra") or {}).get("ops")
@@ -339,21 +416,87 @@ def replay(ctx, path):
     p = os.path.join(ctx.work, "replay.ops")
     with open(p, "w") as f:
         f.write("\n".join(ops) + "\n")
+    # (1) the recorded run itself, judged again by the Lean driver (independent of the tree and of the schedule)
+    if rep.get("trace") and rep.get("impl_output"):
+        tr = os.path.join(ctx.work, "replay.recorded.trace")
+        ri = os.path.join(ctx.work, "replay.recorded.impl")
+        rm = os.path.join(ctx.work, "replay.recorded.model")
+        for q, lines in ((tr, rep["trace"]), (ri, rep["impl_output"])):
+            with open(q, "w") as f:
+                f.write("\n".join(lines) + "\n")
+        rc, err = ctx.drv(stream, tr, rm)
+        if rc == 0:
+            _, _, kn, real = scan(ctx, p, ri, rm, stream)
+            if real:
+                ctx.log("recorded run, judged again by the Lean driver: rejected at op %d '%s' (spec: %s)"
+                        % (real[0][1], real[0][0][real[0][1]], real[0][3][:200]))
+            else:
+                ctx.log("recorded run, judged again by the Lean driver: accepted - the specification no longer calls the "
+                        "recorded observations a violation")
+        else:
+            ctx.log("recorded run: the Lean driver failed on the recorded trace (rc=%d)" % rc)
+    # (2) the case on the tree under check: once plainly, then under contention (a schedule dependent case does not
+    # show on every run)
     ok, impl, model, log = run_pair(ctx, stream, p, "replay")
     if not ok:
         ctx.tie_broken("stream-run:%s" % stream, log)
         return
     nc, nl, f6_cases, real = scan(ctx, p, impl, model, stream)
     ctx.account(stream, p, impl)
-    if f6_cases:
+    runs = 1
+    if not real and not obj.get("fingerprint", "").startswith("krt:oracle:"):
+        hits, total, first, _ = reproduction(ctx, stream, ops, 60 * COPIES, "replay-stress", stop_at=1)
+        runs += total
+        if first is not None:
+            real = [first]
+            ctx.log("reproduced under contention (%d of %d re-runs differ)" % (hits, total))
+    def again(fp, what, r):
+        """the violation shows again: point at the replay file that was given (it has the recorded run)"""
+        n = len(ctx.violations)
+        ctx.violation(fp, what, r, True)
+        if len(ctx.violations) > n:
+            v = ctx.violations[-1]
+            if os.path.abspath(v["path"]) != os.path.abspath(path):
+                try:
+                    os.remove(v["path"])
+                except OSError:
+                    pass
+                v["path"] = path
+
+    if obj.get("fingerprint", "").startswith("krt:oracle:") and not real:
+        out = os.path.join(ctx.work, "replay.oracle.verdict")
+        for i in range(61):
+            copies = 1 if i == 0 else COPIES
+            with open(p, "w") as f:
+                f.write(("\n".join(ops) + "\n") * copies)
+            gmp, busy = CONTENTION[i % len(CONTENTION)]
+            env = {"C16_BUSY": str(busy)}
+            if gmp:
+                env["GOMAXPROCS"] = gmp
+            if os.path.exists(out):
+                os.remove(out)
+            rc, log = ctx.harness("oracle", stream, p, out, env_extra=env)
+            vs = ctx.read_lines(out) if os.path.exists(out) else ["FAIL harness-stopped"]
+            runs += copies
+            for v in vs:
+                if v.startswith("FAIL"):
+                    clause = v.split()[1] if len(v.split()) > 1 else "?"
+                    if clause.startswith("f6:") and any(f in ops[0].split()[4:] for f in FLAGS):
+                        continue
+                    ctx.log("the Go-side evaluation fails again (within %d runs under varying contention)" % runs)
+                    again("krt:oracle:%s" % clause, "the Go-side evaluation of the property fails (%s)" % v,
+                          {"stream": stream, "ops": ops, "oracle_verdict": v})
+                    return
+    if f6_cases and not real:
         fp, what = known_class(stream)
         ctx.violation(fp, what, {"stream": stream, "ops": ops}, True)
-    for (case_lines, idx, a, b) in real[:1]:
+    for m in real[:1]:
+        case_lines, idx, a, b = m[:4]
         fp, what = classify(case_lines[idx], a, b)
-        ctx.violation(fp, what, {"stream": stream, "ops": case_lines, "first_difference_at_op": idx,
-                                 "implementation": a, "specification": b}, True)
+        again(fp, what, {"stream": stream, "ops": case_lines, "first_difference_at_op": idx,
+                         "implementation": a, "specification": b})
     if not f6_cases and not real:
-        ctx.log("replayed case: real krt and specification agree")
+        ctx.log("replayed case: real krt and specification agree in %d runs under varying contention" % runs)
 
 
 MANIFEST = {
